@@ -128,11 +128,13 @@ func runTScenario(t *testing.T, raw []byte) (lines []M, problem string) {
 			rec.lines = append(rec.lines, M{"ev": "Config", "cfg": cfgAny, "t": 0})
 			bs := buildStack(sc.Stack, unit, rec)
 			calls := make([]int, sc.Nx+1)
+			callExecs := make([][]failsafe.Execution[string], sc.Nx+1) // the execution each invocation was given (kept to look at its context afterwards)
 			fn := func(exec failsafe.Execution[string]) (string, error) {
 				x := xOf(exec.Context())
 				rec.mu.Lock()
 				calls[x]++
 				k := calls[x]
+				callExecs[x] = append(callExecs[x], exec)
 				att, exe, ret, hdg := stableCounters(exec)
 				// LastError() and IsCanceled() both depend on the context: read them until two reads agree
 				le, canc := exec.LastError(), exec.IsCanceled()
@@ -315,7 +317,14 @@ func runTScenario(t *testing.T, raw []byte) (lines []M, problem string) {
 				}
 				cbs[id] = M{"state": st, "permits": permits}
 			}
-			q := M{"ev": "Quiesce", "live": live, "used": used, "cb": cbs}
+			ctxs := make([][]bool, sc.Nx)
+			for x := 1; x <= sc.Nx; x++ {
+				ctxs[x-1] = []bool{}
+				for _, e := range callExecs[x] {
+					ctxs[x-1] = append(ctxs[x-1], e.IsCanceled())
+				}
+			}
+			q := M{"ev": "Quiesce", "live": live, "used": used, "cb": cbs, "ctxs": ctxs}
 			if live > 0 {
 				q["stacks"] = stacks
 			}
